@@ -24,8 +24,9 @@ THEOREMS += ['CC.C01_gen_values', 'CC.C01_gen_predicates', 'CC.C01_gen_isfinite'
     'CC.C01_gen_nodes', 'CC.C01_gen_source_ids', 'CC.C01_gen_Yentry', 'CC.C01_gen_dir', 'CC.C01_gen_Qentry', 'CC.C01_gen_rhsNode',
     'CC.C01_gen_mnaA', 'CC.C01_gen_mnaB', 'CC.C01_gen_assemble', 'CC.C01_gen_potential', 'CC.C01_gen_voltage', 'CC.C01_gen_current',
     'CC.C01_gen_power', 'CC.C01_gen_solution_vector']
-LEAN_MODULE_EXTRA = ['CC.Proofs.Solvable', 'CC.Properties.C01Gen']
-OPEN_STATEMENTS = ['det-form of non-singularity (Mathlib Matrix.det ≠ 0); proved in kernel form (C01_solvable) for the square list matrix (C01_square)']
+LEAN_MODULE_EXTRA = ['CC.Proofs.Solvable', 'CC.Properties.C01Gen', 'CC.Properties.C01Det']
+THEOREMS += ['CC.C01_det_ne_zero', 'CC.C01_det_iff', 'CC.C01_exists']
+OPEN_STATEMENTS = []
 ASSUMPTIONS = [
     'binary64 arithmetic of numpy/LAPACK agrees with field arithmetic within 1e-9 relative on instances with cond(A) < 1e8',
     'numpy.linalg.solve is a parameter of the model: theorems hold for every vector with A·x = b; the driver checks that equation exactly',
